@@ -681,9 +681,49 @@ func (q *seq) extMonitor(op, res string, pre, post snap) {
 	}
 }
 
+// inside returns, per token, the value fxcore accounts for: balances of the actors + queued transfers (amount + fee, pool
+// and batches) + coins of the stored outgoing bridge calls.  Only an observed execution moves value out of this sum.
+func inside(sn snap) []int64 {
+	tot := make([]int64, nTokens)
+	for i, b := range sn.bal {
+		tot[i%nTokens] += b
+	}
+	add := func(t txRec) {
+		if t.token >= 0 && t.token < nTokens {
+			tot[t.token] += t.amount + t.fee
+		}
+	}
+	for _, t := range sn.pool {
+		add(t)
+	}
+	for _, b := range sn.batches {
+		for _, t := range b.txs {
+			add(t)
+		}
+	}
+	for _, c := range sn.calls {
+		for _, x := range c.coins {
+			if x[0] >= 0 && x[0] < nTokens {
+				tot[x[0]] += x[1]
+			}
+		}
+	}
+	return tot
+}
+
 func (q *seq) monitor(op, res string, pre, post snap) {
 	out := propFilter{q.out}
 	w := strings.Fields(op)
+	movedOut := make([]int64, nTokens) // value an observed execution takes out, per token
+	defer func() {
+		a, b := inside(pre), inside(post)
+		for t := range a {
+			if b[t]-a[t] != -movedOut[t] {
+				out.Violate(fmt.Sprintf("C05 conservation: per token, balances of the actors + queued transfers (amount+fee) + stored bridge calls changed by %d, expected %d (only an observed execution moves value out), at %s", b[t]-a[t], -movedOut[t], strings.Join(w[:min(len(w), 3)], " ")))
+				break
+			}
+		}
+	}()
 	// C05 partition: every id in at most one place, in pool or exactly one batch
 	place := map[int]int{}
 	for _, t := range post.pool {
@@ -906,6 +946,9 @@ func (q *seq) monitor(op, res string, pre, post snap) {
 					}
 					q.executedTx[t.id] = true
 					q.goneTx[t.id] = "executed"
+					if t.token >= 0 && t.token < nTokens {
+						movedOut[t.token] += t.amount + t.fee
+					}
 				}
 				continue
 			}
@@ -981,6 +1024,9 @@ func (q *seq) monitor(op, res string, pre, post snap) {
 			}
 			if pc[2] == 1 {
 				q.executedCall[c.nonce] = true
+				for _, x := range c.coins {
+					movedOut[x[0]] += x[1]
+				}
 			} else {
 				q.refundedCall[c.nonce] = true
 				for _, x := range c.coins {
